@@ -57,6 +57,7 @@ type Violation struct {
 	Inputs []InputVal `json:"inputs"`
 	Text   string     `json:"text"`
 	PC     string     `json:"pc,omitempty"`
+	Obs    [][2]string `json:"obs,omitempty"`
 }
 
 type Witness struct {
@@ -373,6 +374,7 @@ func (w *World) runJob(job *Job) (res *Result) {
 		ex.known = map[*Term]bool{}
 		ex.dom = newDom()
 		pe := ex.runOnce(func() { ex.call(fn, args, nil) })
+		ex.rollback()
 		res.Paths++
 		res.Ends[pe.kind]++
 		feasible := pe.kind != "infeasible" && pe.kind != "solver"
@@ -418,7 +420,7 @@ func (w *World) runJob(job *Job) (res *Result) {
 				v := viol[key]
 				if v == nil {
 					ins := ex.model()
-					v = &Violation{Kind: pe.kind, Msg: pe.msg, Inputs: ins, Text: inputText(ins), PC: ex.pcString(600)}
+					v = &Violation{Kind: pe.kind, Msg: pe.msg, Inputs: ins, Text: inputText(ins), PC: ex.pcString(600), Obs: ex.evalObs()}
 					viol[key] = v
 					res.Violations = append(res.Violations, v)
 				}
@@ -616,6 +618,8 @@ func main() {
 		}
 	case "tables":
 		dumpTables(w)
+	case "audit":
+		audit(w)
 	default:
 		fmt.Fprintln(os.Stderr, "unknown mode", mode)
 	}
